@@ -133,6 +133,54 @@ def fock_inputs(padded=False):
     return d, P, Mfull, M, w, onec
 
 
+def replay_fock(uhf):
+    """Real torch: the real fock / fock_u_batch on random symmetric densities and integral blocks vs the spec in floats."""
+    def rp(model):
+        import torch
+        from spec import nddo
+        from contracts.es_common import batch_description
+
+        torch.set_default_dtype(torch.float64)
+        g = torch.Generator().manual_seed(11)
+        d = batch_description(False)
+        n, nat, npairs = 4 * d.molsize, len(d.flat), len(d.pairs)
+        ti = lambda t: torch.tensor(np.asarray(t.a, dtype=np.int64))
+        sym = lambda x: 0.5 * (x + x.transpose(-1, -2))
+        H = torch.triu(torch.rand(d.nmol, n, n, generator=g))
+        M = H.reshape(d.nmol, d.molsize, 4, d.molsize, 4).transpose(2, 3).reshape(d.nmol * d.molsize * d.molsize, 4, 4).clone()
+        w = torch.rand(npairs, 10, 10, generator=g)
+        oc = {k: torch.rand(nat, generator=g) for k in ("gss", "gpp", "gsp", "gp2", "hsp")}
+        if uhf:
+            from seqm.seqm_functions.fock_u_batch import fock_u_batch as f
+            P = sym(torch.rand(d.nmol, 2, n, n, generator=g))
+        else:
+            from seqm.seqm_functions.fock import fock as f
+            P = sym(torch.rand(d.nmol, n, n, generator=g))
+        F = f(d.nmol, d.molsize, P, M, ti(d.maskd), ti(d.mask), ti(d.idxi), ti(d.idxj), w, None, oc["gss"], oc["gpp"], oc["gsp"], oc["gp2"], oc["hsp"], "AM1", None, None, None, ti(d.Z), None, None)
+        worst = 0.0
+        where = None
+        for m in range(d.nmol):
+            atoms = [a for a, (mm, i, z) in enumerate(d.flat) if mm == m]
+            loc = {a: d.flat[a][1] for a in atoms}
+            pairs = [(loc[a], loc[b]) for (a, b) in d.pairs if d.flat[a][0] == m]
+            wk = [w[k].tolist() for k, (a, b) in enumerate(d.pairs) if d.flat[a][0] == m]
+            o = {loc[a]: (float(oc["gss"][a]), float(oc["gsp"][a]), float(oc["gpp"][a]), float(oc["gp2"][a]), float(oc["hsp"][a])) for a in atoms}
+            Hm = [[float(H[m, min(i, j), max(i, j)]) for j in range(n)] for i in range(n)]
+            if uhf:
+                spec = nddo.fock_spec_uhf(d.molsize, P[m, 0].tolist(), P[m, 1].tolist(), Hm, pairs, wk, o)
+                for s_ in range(2):
+                    dev = (F[m, s_] - torch.tensor(spec[s_], dtype=torch.float64)).abs()
+                    if float(dev.max()) > worst:
+                        worst, where = float(dev.max()), (m, s_, int(dev.argmax()) // n, int(dev.argmax()) % n)
+            else:
+                spec = nddo.fock_spec(d.molsize, P[m].tolist(), Hm, pairs, wk, o)
+                dev = (F[m] - torch.tensor(spec, dtype=torch.float64)).abs()
+                if float(dev.max()) > worst:
+                    worst, where = float(dev.max()), (m, int(dev.argmax()) // n, int(dev.argmax()) % n)
+        return {"reproduced": bool(worst > 1e-9), "max_abs_deviation_from_textbook_fock": worst, "where": where, "open_shell": uhf}
+    return rp
+
+
 def task_fock(ctx):
     """O3: fock(P) = h + J - K/2 with the dense NDDO integral tensor unpacked from w and the one-centre table; symmetric."""
     from spec import nddo
@@ -163,7 +211,7 @@ def task_fock(ctx):
         spec = nddo.fock_spec(d.molsize, Pm, Hm, pairs, wk, oc)
         for i in range(n):
             for j in range(n):
-                ctx.prove_eq("mol%d.F[%d,%d]=h+J-K/2" % (m, i, j), F.a[m, i, j], spec[i][j], shape="batch [OH, HH]")
+                ctx.prove_eq("mol%d.F[%d,%d]=h+J-K/2" % (m, i, j), F.a[m, i, j], spec[i][j], shape="batch [OH, HH]", replay=replay_fock(False))
         # non-interference (C05): row m mentions only molecule m's density / Hcore and its own pairs / atoms
     ctx.canary_eq("exchange-factor", F.a[0, 0, 4], Mfull.a[0, 0, 4])
     ctx.assume_note("shape-bounded: batch [O-H, H-H], arbitrary symmetric densities and integral blocks; Hcore given as its upper triangle (precondition from hcore.py)")
@@ -228,5 +276,48 @@ def task_hcore_assembly(ctx):
     ctx.assume_note("overlap and two-centre integral kernels replaced by symbolic stubs; shape-bounded batch [OHH, HH+pad]; blocks of padding slots and of the lower triangle stay zero")
 
 
-TASKS_QUICK = ["local_frame", "core_core", "fock", "hcore_assembly"]
+def task_fock_uhf(ctx):
+    """O3 (open shell): fock_u_batch = h + J[Pa+Pb] - K[P_same_spin] for both spin channels, arbitrary symmetric and
+    DIFFERENT alpha / beta trial densities."""
+    from spec import nddo
+
+    fn = ctx.under_contract("seqm.seqm_functions.fock_u_batch:fock_u_batch")
+    ctx.under_contract("seqm.seqm_functions.fock_u_batch:_one_center_u")
+    ctx.under_contract("seqm.seqm_functions.fock_u_batch:_two_center_u")
+    d, P, Mfull, M, w, onec = fock_inputs()
+    n = 4 * d.molsize
+    Pab = st.zeros(d.nmol, 2, n, n)
+    for m in range(d.nmol):
+        for s_, nm in enumerate(("Pa", "Pb")):
+            for i in range(n):
+                for j in range(i, n):
+                    Pab.a[m, s_, i, j] = Pab.a[m, s_, j, i] = real("%s_%d_%d_%d" % (nm, m, i, j))
+
+    def thunk():
+        return fn(d.nmol, d.molsize, Pab, M, d.maskd, d.mask, d.idxi, d.idxj, w, None, onec["gss"], onec["gpp"], onec["gsp"], onec["gp2"], onec["hsp"], "AM1",
+                  None, None, None, d.Z, None, None)
+
+    ex = ctx.explore(thunk, name="fock_u_batch")
+    if len(ex.paths) != 1 or ex.paths[0].raised is not None:
+        ctx.error("paths", "%r %s" % ([p.raised for p in ex.paths], ex.paths[0].notes.get("traceback", "")[-700:] if ex.paths else ""))
+        return
+    F = ex.paths[0].value
+    for m in range(d.nmol):
+        atoms = [a for a, (mm, i, z) in enumerate(d.flat) if mm == m]
+        loc = {a: d.flat[a][1] for a in atoms}
+        pairs = [(loc[a], loc[b]) for (a, b) in d.pairs if d.flat[a][0] == m]
+        wk = [[[w.a[k, x, y] for y in range(10)] for x in range(10)] for k, (a, b) in enumerate(d.pairs) if d.flat[a][0] == m]
+        oc = {loc[a]: (onec["gss"].a[a], onec["gsp"].a[a], onec["gpp"].a[a], onec["gp2"].a[a], onec["hsp"].a[a]) for a in atoms}
+        Pa = [[Pab.a[m, 0, i, j] for j in range(n)] for i in range(n)]
+        Pb = [[Pab.a[m, 1, i, j] for j in range(n)] for i in range(n)]
+        Hm = [[Mfull.a[m, min(i, j), max(i, j)] for j in range(n)] for i in range(n)]
+        spec = nddo.fock_spec_uhf(d.molsize, Pa, Pb, Hm, pairs, wk, oc)
+        for s_, nm in enumerate(("alpha", "beta")):
+            for i in range(n):
+                for j in range(n):
+                    ctx.prove_eq("mol%d.F_%s[%d,%d]=h+J[Pa+Pb]-K[P_%s]" % (m, nm, i, j, nm), F.a[m, s_, i, j], spec[s_][i][j], shape="batch [OH, HH], UHF", replay=replay_fock(True))
+    ctx.canary_eq("exchange-uses-same-spin", F.a[0, 0, 1, 2], F.a[0, 1, 1, 2])
+
+
+TASKS_QUICK = ["local_frame", "core_core", "fock", "fock_uhf", "hcore_assembly"]
 TASKS_THOROUGH = TASKS_QUICK
